@@ -2,8 +2,8 @@
 """keep_seed.py <Cnn> <k> <caught-by comma list> : copies a confirmed seeded change into /verif/seeded/<Cnn>-<k>/"""
 import json, os, shutil, sys, glob
 c, k, caught = sys.argv[1], sys.argv[2], sys.argv[3]
-src = '/tmp/seeds/%s' % c
-dst = '/verif/seeded/%s-%s' % (c, k)
+src = os.environ.get('SEED_SRC') or '/tmp/seeds/%s' % c
+dst = '/verif/seeded/%s-%s' % (c, os.environ.get('SEED_AS') or k)
 os.makedirs(dst, exist_ok=True)
 shutil.copy(os.path.join(src, 'patch_%s.diff' % k), os.path.join(dst, 'patch.diff'))
 for f in glob.glob(os.path.join(src, 'demo_%s.*' % k)) + glob.glob(os.path.join(src, 'run_demo_%s.sh' % k)):
